@@ -127,7 +127,7 @@ def run(ctx):
                                                  'history': c['text'], 'implementation': (got or '')[:2000], 'model': (model.get(c['id']) or '')[:2000],
                                                  'line': c['line']})
     cov = {'evaluations': len(cases), 'distinct_nontrivial': len(pair_cases) + len(set(c['text'] for c in hist)),
-           'rule': 'all ordered pairs (and, from the pair table, all triples) of a %d-value collision alphabet (0/-0, strings differing in case, arrays/code containing them, code differing only in spacing/parentheses): isEqualTo both ways, the case-insensitive comparison behind ==, value::hash() equality; hash map histories over two maps with keys from the alphabet (set, get, deleteAt, in, count, keys, createHashMapFromArray, + copy, array keys mutated after insertion) against a Python dictionary keyed by equivalence class; the Lean model (equality functions, association-list map) must agree; plus pairs of hash maps built by different insertion histories (same, reordered, subset, superset, one value changed, keys respelled, empty): isEqualTo both ways = equality of the denoted finite maps, equal maps hash equally (oracle only, map equality is not in the Lean model)' % len(alpha),
+           'rule': 'all ordered pairs (and, from the pair table, all triples) of a %d-value collision alphabet (0/-0, strings differing in case, arrays/code containing them, code differing only in spacing/parentheses): isEqualTo both ways, the case-insensitive comparison behind ==, value::hash() equality; hash map histories over two maps with keys from the alphabet (set, get, deleteAt, in, count, keys, createHashMapFromArray, + copy, array keys mutated after insertion) against a Python dictionary keyed by equivalence class; the Lean model (equality functions, association-list map) must agree; plus pairs of hash maps built by different insertion histories (same, reordered, subset, superset, one value changed, keys respelled, empty): isEqualTo both ways = equality of the denoted finite maps, equal maps hash equally (oracle only, map equality is not in the Lean model); map histories also change an array in place after it served as a key and store a map in a map that compares equal to it; map equality also over maps that hold nil' % len(alpha),
            'samples': samples, 'oracle_failures': n_or, 'model_mismatches': n_mm, 'pairs': len(pair_cases), 'triples_checked': n_trip,
            'exhaustive': True, 'operation_counts': g.stats, 'hashmap_equality_cases': len(mapeq), 'hashmap_equality_failures': n_mapeq_bad, 'hashmap_equality_kinds': mg.stats}
     return rep.finish(cov, ['NaN and nil are excluded as the property states', 'iteration order of a hash map (keys, str) is unspecified and never observed'])
